@@ -131,7 +131,7 @@ func (w *World) Observe() J {
 	}
 	sort.Slice(lpos, func(i, j int) bool { return lpos[i]["id"].(uint64) < lpos[j]["id"].(uint64) })
 	lparams := app.LeveragelpKeeper.GetParams(ctx)
-	st["leveragelp"] = J{"pools": lpools, "positions": lpos, "openCount": app.LeveragelpKeeper.GetOpenPositionCount(ctx), "safety": decRaw(lparams.SafetyFactor)}
+	st["leveragelp"] = J{"pools": lpools, "positions": lpos, "openCount": app.LeveragelpKeeper.GetOpenPositionCount(ctx), "idCount": app.LeveragelpKeeper.GetPositionCount(ctx), "safety": decRaw(lparams.SafetyFactor)}
 
 	// perpetual
 	ppools := []J{}
@@ -167,7 +167,7 @@ func (w *World) Observe() J {
 		return mtps[i]["id"].(uint64) < mtps[j]["id"].(uint64)
 	})
 	pparams := app.PerpetualKeeper.GetParams(ctx)
-	st["perpetual"] = J{"pools": ppools, "mtps": mtps, "openCount": app.PerpetualKeeper.GetOpenMTPCount(ctx), "safety": decRaw(pparams.SafetyFactor)}
+	st["perpetual"] = J{"pools": ppools, "mtps": mtps, "openCount": app.PerpetualKeeper.GetOpenMTPCount(ctx), "idCount": app.PerpetualKeeper.GetMTPCount(ctx), "safety": decRaw(pparams.SafetyFactor)}
 
 	// accounted pools
 	aps := []J{}
@@ -212,7 +212,7 @@ func (w *World) Observe() J {
 		po = append(po, J{"id": o.OrderId, "owner": o.OwnerAddress, "type": int32(o.PerpetualOrderType), "collateral": []string{o.Collateral.Denom, intStr(o.Collateral.Amount)},
 			"rate": decRaw(o.TriggerPrice.Rate), "long": int32(o.Position) == 1, "pool": o.PoolId, "escrow": tstypes.GetPerpOrderAddress(o.OrderId).String()})
 	}
-	st["tradeshield"] = J{"spot": so, "perp": po}
+	st["tradeshield"] = J{"spot": so, "perp": po, "spotCount": app.TradeshieldKeeper.GetPendingSpotOrderCount(ctx), "perpCount": app.TradeshieldKeeper.GetPendingPerpetualOrderCount(ctx)}
 
 	// oracle
 	prices := [][]string{}
